@@ -212,8 +212,9 @@ countnz(const int_t n, int_t *xprune, int_t *nnzL, int_t *nnzU, GlobalLU_t *Glu)
 void
 fixupL(const int_t n, const int_t *perm_r, GlobalLU_t *Glu)
 {
-    register int_t nsuper, fsupc, nextl, i, j, jstrt;
+    register int_t nsuper, fsupc, nextl, i, j, k, jstrt;
     register int_t *xsup, *xsup_end, *lsub, *xlsub, *xlsub_end;
+    int_t *order; /* supernodes in the order in which they are stored in lsub[] */
 
     if ( n <= 1 ) return;
 
@@ -224,11 +225,29 @@ fixupL(const int_t n, const int_t *perm_r, GlobalLU_t *Glu)
     xlsub_end = Glu->xlsub_end;
     nsuper    = Glu->supno[n];
     nextl     = 0;
+
+    /*
+     * The subscript storage of a supernode is allocated (under LLOCK) after
+     * its number has been drawn (under NSUPER_LOCK), so with several threads
+     * the storage order need not agree with the supernode numbering.
+     * The in-place compaction below must proceed in storage order, otherwise
+     * it overwrites the subscripts of a supernode that has not been moved yet.
+     */
+    order = intMalloc(nsuper + 1);
+    for (i = 0; i <= nsuper; i++) order[i] = i;
+    for (i = 1; i <= nsuper; i++) { /* insertion sort; nearly sorted already */
+	k = order[i];
+	jstrt = xlsub[xsup[k]];
+	for (j = i - 1; j >= 0 && xlsub[xsup[order[j]]] > jstrt; j--)
+	    order[j+1] = order[j];
+	order[j+1] = k;
+    }
     
     /* 
      * For each supernode ...
      */
-    for (i = 0; i <= nsuper; i++) {
+    for (k = 0; k <= nsuper; k++) {
+	i = order[k];
 	fsupc = xsup[i];
 	jstrt = xlsub[fsupc];
 	xlsub[fsupc] = nextl;
@@ -239,6 +258,7 @@ fixupL(const int_t n, const int_t *perm_r, GlobalLU_t *Glu)
 	xlsub_end[fsupc] = nextl;
     }
     xlsub[n] = nextl;
+    SUPERLU_FREE (order);
 
 #if ( PRNTlevel==1 )
     printf(".. # edges in supernodal graph of L = " IFMT "\n", nextl);
